@@ -51,8 +51,8 @@ def run(tier):
     build_harness("hpy")
     nprog = 150 if tier == "quick" else 3000
     pb, dr, pa, pdev, pg2, pg3 = parallel([pybind_run, lambda: drivers_run("num", 3, 3, "drivers_py", caseset="py"), pyarrays_run,
-                                           pyarrays_deviation_run, lambda: programs_run(2, 8, nprog, "prog17_2_8"),
-                                           lambda: programs_run(3, 12, nprog, "prog17_3_12")], 6)
+                                           pyarrays_deviation_run, lambda: programs_run(2, 8, nprog, "prog17_2_8", excluded="PyExcluded"),
+                                           lambda: programs_run(3, 12, nprog, "prog17_3_12", excluded="PyExcluded")], 6)
     chk.add_tlc(pb, "forwarding table python method/operator -> program of Rust operations; reflected operators mean l-x, l/x, l+x, l*x "
                     "(checked over exact rationals on the five scalar kinds); driver dispatch on the input length")
     chk.add_tlc(dr, "driver cases for input lengths 1..12 (closures, points, expected outputs by formal differentiation)")
